@@ -238,6 +238,19 @@ def run(rep, tier, driver):
             for v in variants:
                 names.append(v)
                 groups.append(gi)
+    # groups that need a second reactor round (a group on a carbon that another group adds), in every written order
+    gi0 = (max(groups) + 1) if groups else 0
+    for k in range(12 if tier == "quick" else 120):
+        sg = rng.choice(["Glc", "Gal", "Man", "Fuc"])
+        add = rng.choice(["6Me", "6Et", "4Ac", "2Ac"])
+        late = "%d%s" % (rng.choice([7, 8]), rng.choice(["S", "P", "Ac"]))
+        third = rng.choice(["3S", "3Bz", "2F", ""])
+        ms = [m for m in (add, late, third) if m]
+        if len({m[0] for m in ms}) < len(ms):
+            continue
+        for perm in itertools.permutations(ms):
+            names.append(sg + "".join(perm))
+            groups.append(gi0 + k)
     # a spelling takes part only if the front-end reads it as the same tokens as the first spelling of its group
     toks = pmap(_recipe_tokens, names, chunk=8)
     ref_toks = {}
